@@ -182,6 +182,9 @@ def _parse_lines(lines, path, out):  # list of ('text', str) | ('prelude', width
         elif st.startswith('//@include'):
             ip = os.path.join(VERIF, 'verus', st.split()[1])
             _parse_lines(open(ip).read().split('\n'), ip, out)
+        elif st.startswith('//@struct'):
+            f, hdr, fields = [x.strip() for x in st[len('//@struct'):].split('::')]
+            out.append(('struct', (f, hdr, [x.strip() for x in fields.split(',') if x.strip()])))
         elif st.startswith('//@unit'):
             u = dict(id=st.split()[1], subs=[], loops={}, inserts=[], within='', header=[])
             i += 1
@@ -211,6 +214,8 @@ def _parse_lines(lines, path, out):  # list of ('text', str) | ('prelude', width
                     raise Undecided(f"{path}: unknown directive {key}")
                 i += 1
             while i < len(lines) and lines[i].strip() != '//@body':
+                if lines[i].strip().startswith('//@'):
+                    raise Undecided(f"{path}: directive inside the contract header of unit {u['id']}: {lines[i].strip()}")
                 u['header'].append(lines[i])
                 i += 1
             if i >= len(lines):
@@ -254,6 +259,16 @@ def generate(template_path, repo, out_path):
             emit(instantiate_prelude(val))
         elif kind == 'text':
             out_lines.append(wsub(val))
+        elif kind == 'struct':
+            f, hdr, fields = val
+            blk = extract.extract_block_text(repo, f, hdr)
+            inner = blk[blk.index('{') + 1: blk.rindex('}')]
+            inner = re.sub(r'//[^\n]*', '', inner)
+            inner = re.sub(r'#\[[^\]]*\]', '', inner)
+            got = re.findall(r'(?:pub(?:\([^)]*\))?\s+)?(\w+)\s*:', inner)
+            if got != fields:
+                raise Undecided(f"data carrier drift (lost anchor): {hdr} in {f} has fields {got}, carrier written for {fields}")
+            log.append(f"R11 carrier checked: {hdr} fields {fields}")
         else:
             u = dict(val)
             u['id'] = wsub(u['id'])
